@@ -218,4 +218,27 @@ def r3(ctx):
     return rep
 
 
-RULES = [("C03.R1", r1), ("C03.R2", r2), ("C03.R3", r3)]
+POLICY_MUTATORS = ("set", "delete", "remove", "flush")
+
+
+def r4(ctx):
+    rep = Report("C03.R4", "the policy layer keeps single-key commands atomic: at most one mutation of the command's key per call, reads add none", floor=4)
+    f = ctx.facts
+    for meth, args in (("set", ["self", "key", "record"]), ("delete", ["self", "key", "header"]), ("remove", ["self", "key"]), ("get", ["self", "key"])):
+        b = f.one(rp(meth))
+        rep.analysed(b)
+        I = Interp(f, loop_bound=1)
+        paths = I.run(b, [P(a) for a in args])
+        worst = 0
+        names = []
+        for p in paths:
+            muts = [e for e in p.events if e.kind == "call" and e.name.startswith(CACHE + "::") and e.name.split("::")[-1] in POLICY_MUTATORS and len(e.args) > 1 and P("key") in atoms(e.args[1])]
+            if len(muts) > worst:
+                worst = len(muts)
+                names = [e.name.split("::")[-1] for e in muts]
+        limit = 0 if meth == "get" else 1
+        rep.check(worst <= limit, "RandomPolicy::%s:one-mutation-of-the-key" % meth, "%d mutation(s) of the key" % worst, "RandomPolicy::%s performs %s on the command's key as separately locked steps: between them another connection sees the key absent / in an intermediate state (a plain set or delete is no longer atomic)" % (meth, " then ".join(names)), b.loc())
+    return rep
+
+
+RULES = [("C03.R1", r1), ("C03.R2", r2), ("C03.R3", r3), ("C03.R4", r4)]
